@@ -13,7 +13,7 @@ META = dict(
          "silence, leader move), retry budgets 0/1/3, flush settings, idempotent on/off, hook-gated injections of fresh input into the "
          "retry window and Close at intermediate steps are executed on the real producer; TLC validates every recorded trace: each "
          "submitted message gets exactly one terminal event, no event for anything not submitted, Close returns and both channels close.",
-    note="bounded model; real executions are a finite sample of schedules (steered by broker holds and hook gates); simulated "
+    note="conducted replay: TLC behaviours in hook normal form (every internal action recorded) are followed step by step by the real goroutines, parked at the hook points by a conductor that fails open (followed/diverged counts in the evidence); bounded model; real executions are a finite sample of schedules (steered by broker holds and hook gates); simulated "
          "cluster + driver trusted; SyncProducer: SendMessage from concurrent goroutines and SendMessages batches over the fault kinds (return values validated as outcomes)",
     design_ref="6/C01",
 )
@@ -21,7 +21,9 @@ META = dict(
 
 def run(ctx):
     n = 80 if ctx.tier == "quick" else 1500
-    fams = [("gen", "gen.p1", n), ("gen", "gen.p2", n), ("gen", "gen.p2b1", n), ("gen", "gen.idem", n),
+    nc = 40 if ctx.tier == "quick" else 400     # conducted replay: behaviours per model instance
+    fams = [("conduct", "conduct.p1", nc), ("conduct", "conduct.p2b1", nc), ("conduct", "conduct.p2", nc),
+            ("gen", "gen.p1", n), ("gen", "gen.p2", n), ("gen", "gen.p2b1", n), ("gen", "gen.idem", n),
             lambda: pc.family_faults(False, ctx.seed), lambda: pc.family_faults(True, ctx.seed),
             lambda: pc.family_gates(False), lambda: pc.family_gates(True), lambda: pc.family_gates_metafail(False), pc.family_sibling_syn, pc.family_level_jump, lambda: pc.family_resubmit(False), lambda: pc.family_resubmit(True), lambda: pc.family_error_codes(False), lambda: pc.family_error_codes(True), pc.family_idem_clean, pc.family_retry0, lambda: pc.family_sync(False), lambda: pc.family_sync(True), lambda: pc.family_overflow(False), lambda: pc.family_overflow(True)]
     mc = ["MCProducer.small.cfg", "MCProducer.idem.cfg"] if ctx.tier == "quick" else ["MCProducer.quick.cfg", "MCProducer.idem.cfg", "MCProducer.p2.cfg"]
